@@ -172,8 +172,8 @@ Proof. intros [sts occ|ts|]; reflexivity. Qed.
 
 Theorem export_observe : forall s, export (observe s) = export s.
 Proof.
-  intros s. unfold export, observe; simpl. f_equal. rewrite map_map. apply map_ext.
-  intros o. unfold obs_obst; simpl. apply pred_states_obs.
+  intros s. unfold export, observe; simpl. rewrite map_map. f_equal. f_equal. apply map_ext.
+  intros o. unfold obs_obst; simpl. rewrite pred_states_obs; reflexivity.
 Qed.
 
 Theorem export_unchanged : forall ops s, export (run (step repaired) ops s) = export s.
@@ -187,14 +187,24 @@ Theorem write_after_run : forall ops s w, is_write w = true ->
 Proof. intros. rewrite !write_result by assumption. rewrite export_unchanged; reflexivity. Qed.
 
 (* ------------------------------------------------------------------ the caches do change *)
-Definition demo_state : tstate := {| st_time := 1; st_attrs := [Position; Velocity; VelocityY]; st_prop_orient := false |}.
+Definition demo_state : tstate :=
+  {| st_time := 1; st_attrs := [Position; Velocity; VelocityY]; st_prop_orient := false; st_val := 41 |}.
+Definition demo_inters : list inter :=
+  [ {| x_id := 100; x_incs := [ {| i_id := 101; i_lanelets := [7]; i_right := []; i_straight := [8]; i_left := [9] |};
+                               {| i_id := 102; i_lanelets := [5]; i_right := [6]; i_straight := []; i_left := [] |} ];
+       x_cross := [3] |};
+    {| x_id := 200; x_incs := []; x_cross := [4] |} ].
 Definition demo : scen :=
-  {| s_obst := [ {| o_role := Static; o_t0 := 0; o_pred := PNone |};
-                 {| o_role := Dynamic; o_t0 := 0; o_pred := PTraj [demo_state] None |} ];
+  {| s_obst := [ {| o_role := Static; o_t0 := 0; o_pred := PNone; o_val := 11 |};
+                 {| o_role := Dynamic; o_t0 := 0; o_pred := PTraj [demo_state] None; o_val := 12 |} ];
      s_net := {| n_lanelets := [ {| l_id := 7; l_dist := false; l_inner := false |} ]; n_buffered := [7];
-                 n_tree := Some [7]; n_lights := [ Some {| c_durs := [3; 4]; c_off := 2; c_cum := None |} ] |};
+                 n_tree := Some [7]; n_lights := [ Some {| c_durs := [3; 4]; c_off := 2; c_cum := None |} ];
+                 n_inters := demo_inters |};
      s_goals := [ {| g_n := 2; g_table := TDefault [(1, [7])] |} ] |}.
-Definition demo_ops : list op := [OccsAt 1; LaneletQ 0; LightAt 0 5; DeepCopy; PbWrite; XmlWrite].
+Definition demo_ops : list op :=
+  [OccsAt 1; LaneletQ 0; LightAt 0 5; DeepCopy; Draw true [] [] []; PbWrite; XmlWrite].
+Definition demo_file : file :=
+  ([(11, []); (12, [(1, [Position; Velocity; VelocityY], 41)])], [[[]; [7]]], demo_inters).
 
 Lemma demo_run :
   run (step repaired) demo_ops demo <> demo /\
@@ -204,8 +214,7 @@ Lemma demo_run :
   n_lights (s_net (run (step repaired) demo_ops demo)) = [ Some {| c_durs := [3; 4]; c_off := 2; c_cum := Some [2; 5; 9] |} ] /\
   trace (step repaired) demo_ops demo =
     [RUnit; RUnit; RCum [2; 5; 9]; RCopy (run (step repaired) [OccsAt 1; LaneletQ 0; LightAt 0 5] demo);
-     RFile ([[]; [(1, [Position; Velocity; VelocityY])]], [[[]; [7]]]);
-     RFile ([[]; [(1, [Position; Velocity; VelocityY])]], [[[]; [7]]])].
+     RIds [7; 5; 3; 4; 9; 8; 6]; RFile demo_file; RFile demo_file].
 Proof. repeat split; try (vm_compute; reflexivity). vm_compute. discriminate. Qed.
 
 (* ------------------------------------------------------------------ the caches stay coherent *)
@@ -450,6 +459,7 @@ Proof.
     by (apply (f_equal n_lanelets) in Hnet; exact Hnet).
   assert (Hts : map (option_map obs_cycle) (n_lights (s_net s1)) = map (option_map obs_cycle) (n_lights (s_net s2)))
     by (apply (f_equal n_lights) in Hnet; exact Hnet).
+  assert (Hxs : n_inters (s_net s1) = n_inters (s_net s2)) by (apply (f_equal n_inters) in Hnet; exact Hnet).
   pose proof (obst_alike _ _ Hos Ho1 Ho2) as Hal.
   assert (Hg : s_goals s1 = s_goals s2) by (apply (f_equal s_goals) in He; exact He).
   assert (Hex : export s1 = export s2) by (rewrite <- (export_observe s1), <- (export_observe s2), He; reflexivity).
@@ -490,8 +500,9 @@ Proof.
     { rewrite (fill_cum_answer _ C1), (fill_cum_answer _ C2).
       injection Hn; intros; unfold cum_of; congruence. }
     simpl. f_equal. exact A.
-  - (* DeepCopy *) f_equal. unfold observe, obs_net; simpl. rewrite Hos, Hls, Hts, Hg; reflexivity.
-  - (* Pickle *) f_equal. unfold observe, obs_net; simpl. rewrite Hos, Hls, Hts, Hg; reflexivity.
+  - (* DeepCopy *) f_equal. unfold observe, obs_net; simpl. rewrite Hos, Hls, Hts, Hg, Hxs; reflexivity.
+  - (* Pickle *) f_equal. unfold observe, obs_net; simpl. rewrite Hos, Hls, Hts, Hg, Hxs; reflexivity.
+  - (* Draw *) rewrite Hxs; reflexivity.
   - (* XmlWrite *) rewrite Hex; reflexivity.
   - (* PbWrite *) rewrite Hex; reflexivity.
 Qed.
@@ -511,10 +522,10 @@ Definition old_pb : code := {| occ_on_copy := true; pb_checks_key := false |}.
 Lemma old_occ_refuted :
   observe (fst (step old_occ demo (OccSet 1))) <> observe demo /\
   observe (fst (step old_occ demo (OccsAt 1))) <> observe demo /\
-  observe (fst (step old_occ demo (Draw [1%nat] [] []))) <> observe demo /\
+  observe (fst (step old_occ demo (Draw false [1%nat] [] []))) <> observe demo /\
   export (fst (step old_occ demo (OccAt 1 1))) =
-    ([[]; [(1, [Position; Velocity; VelocityY; Orientation])]], [[[]; [7]]]) /\
-  export demo = ([[]; [(1, [Position; Velocity; VelocityY])]], [[[]; [7]]]).
+    ([(11, []); (12, [(1, [Position; Velocity; VelocityY; Orientation], 41)])], [[[]; [7]]], demo_inters) /\
+  export demo = demo_file.
 Proof. repeat split; try (vm_compute; reflexivity); vm_compute; discriminate. Qed.
 
 (* in general: on a trajectory all of whose states have a heading or both velocity components, the old code
